@@ -214,6 +214,50 @@ def _discharge(F, f, b, par, kind, x, text):
         if r_.get("k") == "Call" and r_["fn"].get("name") in ("leading_zeros", "trailing_zeros", "count_ones", "count_zeros", "leading_ones", "trailing_ones") \
                 and (const_eval(x["l"]) in (8, 16, 32, 64, 128) or pp(strip(x["l"])).endswith("BITS")):
             return "G-bits: a bit count of an integer never exceeds its width"
+    if kind == "Sub" and const_eval(x["r"]) is not None and strip(x["l"]).get("k") in ("Var", "Upvar"):
+        c_ = const_eval(x["r"])
+        vid_ = strip(x["l"])["var"]["id"]
+        for a in _ancestors(par, x):
+            # G-range: the loop variable of `for v in lo..` / `lo..=hi` with lo >= c
+            if a.get("k") == "For" and a["pat"].get("k") == "Binding" and a["pat"]["var"]["id"] == vid_:
+                it_ = strip(a["iter"])
+                lo_ = None
+                if it_.get("k") == "Adt" and (it_.get("adt") or "").startswith("core::ops::range::Range") and it_.get("fields"):
+                    lo_ = const_eval(next((f_["e"] for f_ in it_["fields"] if f_.get("name") == "start"), {}))
+                elif it_.get("k") == "Call" and it_["fn"].get("name") == "new" and "RangeInclusive" in (it_["fn"].get("def") or "") and it_["args"]:
+                    lo_ = const_eval(it_["args"][0])
+                if lo_ is not None and lo_ >= c_:
+                    return "G-range: the loop variable starts at %d >= %d" % (lo_, c_)
+            # G-arms: a catch-all match arm binding reached only when the earlier arms did not take the values 0..c-1
+            if a.get("k") is None and "pat" in a and "body" in a:
+                pt_ = a["pat"]
+                while pt_.get("k") in ("Deref",):
+                    pt_ = pt_["sub"]
+                if pt_.get("k") == "Binding" and not pt_.get("sub") and pt_["var"]["id"] == vid_:
+                    m_ = next((z for z in _ancestors(par, a) if z.get("k") == "Match"), None)
+                    if m_ is not None:
+                        taken = set()
+                        for arm in m_["arms"]:
+                            if arm is a:
+                                break
+                            if arm.get("guard") is not None:
+                                continue
+                            def consts(p_):
+                                while p_.get("k") in ("Deref",):
+                                    p_ = p_["sub"]
+                                if p_.get("k") == "Const" and isinstance(p_.get("val"), int) and not isinstance(p_.get("val"), bool):
+                                    return {p_["val"]}
+                                if p_.get("k") == "Or":
+                                    out_ = set()
+                                    for q_ in p_.get("pats", []):
+                                        out_ |= consts(q_)
+                                    return out_
+                                if p_.get("k") == "Range" and isinstance(p_.get("lo"), int) and isinstance(p_.get("hi"), int) and p_["hi"] - p_["lo"] < 4096:
+                                    return set(range(p_["lo"], p_["hi"] + (1 if p_.get("end") == "Included" else 0)))
+                                return set()
+                            taken |= consts(arm["pat"])
+                        if all(v_ in taken for v_ in range(c_)):
+                            return "G-arms: earlier arms take the values below %d" % c_
     if kind == "Sub":
         # G-dom-while: `a - b` inside `while b < a { .. }` before either operand is written in the iteration
         an_, bn_ = pp(strip(x["l"])), pp(strip(x["r"]))
